@@ -19,6 +19,12 @@ CHECKS = {
          "closure (MC_Decomp) computes exactly them, and that the accumulator without stem closure is rejected; every enumerated topology is replayed "
          "into get_branches/get_paths/get_tips/get_furcations/Node.branch/BranchTree.from_tree/ToBranchTree/ToLongestPath and judged by TLC",
     design="4/C08", technique="TLA+ spec (Decomp.tla) + TLC exhaustive small-scope generation, replay into the code, TLC-judged observations; algorithm layer model-checked"),
+ "C05": dict(
+    text="SortNodes.tla states the relabelling relation (bijection preserving parent relation and every per-node column, parents first, root 0); "
+         "TLC model-checks the code's stack-based renumbering loop against it for every single-rooted table over several id pools and row orders "
+         "(termination included) and judges the observed output of sort_tree, sort_nodes/sort_nodes_, read_swc(sort_nodes=True) and is_sorted on every "
+         "enumerated table, including sorting the result a second time",
+    design="4/C05", technique="TLA+ spec (SortNodes.tla) + TLC exhaustive small-scope generation, replay into the code, TLC-judged observations; algorithm layer model-checked"),
 }
 
 NA_REASON = {}
